@@ -106,7 +106,13 @@ func oracleC09(ctx *harness.Ctx, cs *harness.Case) (ds []harness.Discrepancy) {
 	}
 	o := e.Guarded(src)
 	if o.Panicked {
-		return // C03
+		// a run-time panic is C03's business; a *diagnostic* (the *Error / MultiError the contract says is returned) that leaves
+		// the call as a panic is the error contract itself
+		switch o.PanicVal.(type) {
+		case *memefish.Error, memefish.MultiError:
+			add("C09 diagnostic-escaped-as-panic "+e.Name, fmt.Sprintf("%s panicked with the syntax error it should have returned: %v", e.Name, o.PanicVal))
+		}
+		return
 	}
 	nBad := 0
 	badKinds := map[string]bool{}
